@@ -56,8 +56,9 @@ NearestMatch(c, e) ==
   \* equivalence of two classifiers (C15): below the threshold NearestMatch is not comparable -- it is documented as
   \* undefined among equidistant values, the heap order of equal confidences depends on goroutine scheduling, and
   \* go-diff gives up after one second on texts that differ a lot, which makes low confidences load dependent
-  /\ MemoOK(e, IF e.found /\ e.m.r >= e.floor THEN [name |-> e.m.name, cb |-> e.m.cb, off |-> e.m.off, ext |-> e.m.ext]
-                ELSE [name |-> "<below threshold>"])
+  \* (the name is not compared at all: several shipped licenses share a header text, e.g. AFL-2.1 / AFL-3.0, and tie)
+  /\ MemoOK(e, IF e.found /\ e.m.r >= e.floor THEN [cb |-> e.m.cb, off |-> e.m.off, ext |-> e.m.ext]
+                ELSE [cb |-> "<below threshold>"])
   /\ UNCHANGED known
 
 (* C17: one FindPotentialMatches result *)
